@@ -504,7 +504,8 @@ static int32_t cb_msg(qb_ipcs_connection_t *sc, void *data, size_t size)
 		c->server_dropping = true;
 		qb_ipcs_disconnect(sc);
 	}
-	if (m.flags & DF_RET_NEG) { count(p_backoff); ret = -1; }
+	// "0 == good, negative == backoff": any negative value backs off, any other value is "good"
+	{ static const int32_t OKS[4] = { 0, 0, 1, 77 }, NEGS[4] = { -1, -11, -105, INT32_MIN }; ret = OKS[(size_t)(m.serial % 4)]; if (m.flags & DF_RET_NEG) { count(p_backoff); ret = NEGS[(size_t)(m.serial % 4)]; } }
 	return ret;
 }
 
